@@ -196,6 +196,17 @@ func shortStack() string {
 			}
 		}
 	}
+	if len(out) == 0 {
+		// no library frame: a harness-side panic; keep the top of the raw stack for debugging
+		for _, l := range lines {
+			if !strings.HasPrefix(l, "\t") && !strings.HasPrefix(l, "goroutine") && !strings.Contains(l, "runtime/") && l != "" {
+				out = append(out, strings.TrimSpace(l))
+				if len(out) >= 10 {
+					break
+				}
+			}
+		}
+	}
 	return strings.Join(out, " <- ")
 }
 
